@@ -39,7 +39,47 @@ func (c *Ctx) SEC(rule string) []report.Obligation {
 				continue
 			}
 			out = append(out, ok(rule+"-2", id+" :: value receiver", c.P.Pos(fn.Pos()), "declared on the value type: it works on a copy"))
-			out = append(out, c.secBlanking(rule+"-1", fn, id, g.field, g.blankWhen, g.desc))
+			// the blanking may sit in a value-receiver helper of the same type whose result is what gets rendered
+			target := fn
+			hasStore := func(f *ssa.Function) bool {
+				for _, b := range f.Blocks {
+					for _, in := range b.Instrs {
+						if st, isSt := in.(*ssa.Store); isSt {
+							if fa, isFA := st.Addr.(*ssa.FieldAddr); isFA && fieldName(fa) == "Content" {
+								return true
+							}
+						}
+					}
+				}
+				return false
+			}
+			if !hasStore(fn) {
+				for _, cs := range callSites(fn, func(com *ssa.CallCommon) bool {
+					cal := com.StaticCallee()
+					return cal != nil && cal.Signature.Recv() != nil && types.Identical(cal.Signature.Recv().Type(), fn.Signature.Recv().Type())
+				}) {
+					call, isCall := cs.(*ssa.Call)
+					if !isCall || len(*call.Referrers()) == 0 {
+						continue
+					}
+					if h := cs.Common().StaticCallee(); hasStore(h) {
+						// what the marshaller renders is the helper's result: no other copy of the receiver reaches an
+						// encoder or a return
+						other := false
+						for _, b := range fn.Blocks {
+							for _, in := range b.Instrs {
+								if ct, ok := in.(*ssa.ChangeType); ok && sameStructType(ct.X.Type(), fn.Signature.Recv().Type()) {
+									other = true
+								}
+							}
+						}
+						if !other {
+							target = h
+						}
+					}
+				}
+			}
+			out = append(out, c.secBlanking(rule+"-1", target, id, g.field, g.blankWhen, g.desc))
 		}
 	}
 	// ---- SEC-3: who may write marshallContent
@@ -588,4 +628,9 @@ func (c *Ctx) CARRIER(rule string) []report.Obligation {
 		out = append(out, bad(rule+"b", "secretConfigDecoderHook :: the carried value becomes the content only while `environment` is declared", c.P.Pos(f.Pos()), "no store into Content found in the hook"))
 	}
 	return out
+}
+
+
+func sameStructType(a, b types.Type) bool {
+	return types.Identical(a, b)
 }
